@@ -6,13 +6,6 @@
  * of big-endian 32-bit words: w_0..w_{n-1} are peer ids added by devices on
  * the way (high bit clear), w_n is the request id (high bit set).
  *
- * The scan is described declaratively by ONE ghost number g_n, the index of
- * the first word position i in 0..14 at which the scan cannot continue --
- * either the body has no complete word i ("exhausted") or word i has the high
- * bit set ("end marker") -- or 15 if there is no such position.  For every
- * body exactly one value of g_n satisfies RR_SCAN_PRE, so requiring it does
- * not restrict the input (it defines the ghost).  15 = NNI_MAX_MAX_TTL, a
- * constant of the code, so the quantifier below has a constant bound.
  */
 #ifndef VP_XREP_SPEC_H
 #define VP_XREP_SPEC_H
@@ -23,23 +16,39 @@
 	    (m)->m_header_len == 0 && (m)->m_refcnt.v == 1 &&                  \
 	    CH_FULL_PRE(&(m)->m_body))
 
-#define RR_WORD_MISSING(m, i) (4 * (size_t) (i) + 4 > (m)->m_body.ch_len)
-#define RR_WORD_ENDS(m, i) (((m)->m_body.ch_ptr[4 * (size_t) (i)] & 0x80u) != 0)
-#define RR_STOP(m, i) (RR_WORD_MISSING(m, i) || RR_WORD_ENDS(m, i))
-#define RR_SCAN_PRE(m)                                                     \
-	(g_n <= 15 &&                                                          \
-	    __CPROVER_forall { size_t vi; (vi < 15) ==> ((vi < g_n) ==> !RR_STOP(m, vi)) } && \
-	    (g_n < 15 ==> RR_STOP(m, g_n)))
-
-/* classification of a request by the property statement (ttl = hop limit 1..15):
- *   ACCEPT   : the end marker is among the first ttl words: n+1 = g_n+1 words move
- *   GARBAGE  : the body is exhausted before an end marker, within the first ttl words
- *   TOOMANY  : the first ttl words exist and none ends the backtrace */
-#define RR_ACCEPT(oldlen, ttl) ((int) g_n < (ttl) && 4 * g_n + 4 <= (oldlen))
-#define RR_GARBAGE(oldlen, ttl) ((int) g_n < (ttl) && 4 * g_n + 4 > (oldlen))
-#define RR_TOOMANY(ttl) ((int) g_n >= (ttl))
-/* number of bytes that move from the body to the header when accepted */
-#define RR_MOVED (4 * g_n + 4)
+/* The three classes of the property statement, for a body of W = len/4
+ * complete words and hop limit ttl (1..15):
+ *   ACCEPT  : some word n < ttl has the high bit (request id) and no earlier one has
+ *   GARBAGE : W < ttl and none of the W words has the high bit (body exhausted first)
+ *   TOOMANY : W >= ttl and none of the first ttl words has the high bit
+ * They are disjoint and exhaustive.  The contracts state, with the ghost
+ * byte (g_k, g_b = old body byte at g_k, for EVERY g_k):
+ *   exactly one of {delivered, disconnected, dropped} happens, and
+ *   delivered    ==> ACCEPT  (with n+1 = number of moved words, read off the new header)
+ *   disconnected ==> GARBAGE
+ *   dropped      ==> TOOMANY
+ * which is equivalent to class ==> outcome because the classes are disjoint
+ * and exhaustive.  No quantifier, no code. */
+#define RR_HB(b) (((b) & 0x80u) != 0)
+/* "old body word g_k/4 (if g_k is a word start below word index lim) has no high bit" */
+#define RR_NO_END_BELOW(lim) ((g_k % 4 == 0 && g_k / 4 < (size_t) (lim)) ==> !RR_HB(g_b))
 
 #define RR_TTL_OK(t) ((t) >= 1 && (t) <= NNI_MAX_MAX_TTL)
+
+/* ghost equations binding the pre-state geometry of the body (used by the woven loop invariant) */
+#define RR_BODY_GHOSTS(m)                                                  \
+	(g_len0 == (m)->m_body.ch_len && g_off0 == CH_OFF(&(m)->m_body) &&     \
+	    g_cap0 == (m)->m_body.ch_cap && g_p == (void *) (m)->m_body.ch_buf)
+
+/* loop invariant of the backtrace loop, i = number of words moved so far,
+ * h0 = header bytes present before the first moved word */
+#define RR_LOOP_INV(msg, i, h0)                                            \
+	((msg)->m_header_len == (h0) + 4 * (size_t) (i) && (msg)->m_refcnt.v == 1 && \
+	    (msg)->m_body.ch_cap == g_cap0 && (msg)->m_body.ch_buf == (uint8_t *) g_p && \
+	    4 * (size_t) (i) <= g_len0 && (msg)->m_body.ch_len == g_len0 - 4 * (size_t) (i) && \
+	    __CPROVER_same_object((msg)->m_body.ch_buf, (msg)->m_body.ch_ptr) && CH_FULL_SCALAR(&(msg)->m_body) && \
+	    (((msg)->m_body.ch_len != 0) ==> CH_OFF(&(msg)->m_body) == g_off0 + 4 * (size_t) (i)) && \
+	    ((g_k < 4 * (size_t) (i)) ==> HDR(msg)[(h0) + g_k] == g_b) &&     \
+	    ((g_k >= 4 * (size_t) (i) && g_k < g_len0) ==> (msg)->m_body.ch_ptr[g_k - 4 * (size_t) (i)] == g_b) && \
+	    RR_NO_END_BELOW(i))
 #endif
